@@ -202,6 +202,12 @@ func NewProofCommit(key *gabikeys.PublicKey, witn *Witness, randomizer *big.Int)
 // SetExpected sets certain values of the proof to expected values, inferred from the containing proofs,
 // before verification.
 func (p *Proof) SetExpected(pk *gabikeys.PublicKey, challenge, response *big.Int) error {
+	if p.SignedAccumulator == nil || p.Responses == nil {
+		return errors.New("malformed nonrevocation proof")
+	}
+	if !pk.RevocationSupported() {
+		return errors.New("public key does not support revocation")
+	}
 	acc, err := p.SignedAccumulator.UnmarshalVerify(pk)
 	if err != nil {
 		return err
@@ -209,6 +215,11 @@ func (p *Proof) SetExpected(pk *gabikeys.PublicKey, challenge, response *big.Int
 	p.Nu = acc.Nu
 	p.Challenge = challenge
 	p.Responses["alpha"] = response
+	// The challenge contributions are computed from these values before VerifyWithChallenge()
+	// gets to check them, so refuse incomplete proofs here already.
+	if !proofstructure.verifyProofStructure((*proof)(p)) {
+		return errors.New("malformed nonrevocation proof")
+	}
 	return nil
 }
 
@@ -218,7 +229,7 @@ func (p *Proof) ChallengeContributions(key *gabikeys.PublicKey) []*big.Int {
 }
 
 func (p *Proof) VerifyWithChallenge(pk *gabikeys.PublicKey, reconstructedChallenge *big.Int) bool {
-	if !proofstructure.verifyProofStructure((*proof)(p)) {
+	if p.SignedAccumulator == nil || !proofstructure.verifyProofStructure((*proof)(p)) {
 		return false
 	}
 	if (*proof)(p).ProofResult("alpha").Cmp(Parameters.bTwoZk) > 0 {
